@@ -52,7 +52,11 @@ def main():
         aux = [f for f in os.listdir(src) if f not in ("patch.diff", "notes.md", "zz_demo_test.go") and os.path.isfile(os.path.join(src, f)) and f.endswith((".c", ".h", ".sh", ".go"))]
         demo_flags = "-race " if prop == "C19" else ""
         # auxiliary files go where the agent had them: out/<n>/ inside the worktree
-        auxdir = os.path.join(wt, "out", os.path.basename(os.path.normpath(src)))
+        # (a stored change seeded/<prop>-[rN-]<i> came from out/<i>/)
+        auxname = os.path.basename(os.path.normpath(src))
+        if os.path.dirname(os.path.normpath(src)).endswith("/seeded"):
+            auxname = auxname.split("-")[-1]
+        auxdir = os.path.join(wt, "out", auxname)
         def place():
             shutil.copy(demo, os.path.join(wt, "zz_demo_test.go"))
             os.makedirs(auxdir, exist_ok=True)
